@@ -26,7 +26,8 @@ def base_statements(seed, n_templates):
 
 
 class Workload:
-    def __init__(self, ctx, n_templates, n_mut, n_soup, n_noise=True, dialects=DIALECTS, max_nest=40):
+    def __init__(self, ctx, n_templates, n_mut, n_soup, n_noise=True, dialects=DIALECTS, max_nest=40, n_lexeme=0):
+        self.n_lexeme = n_lexeme
         self.ctx = ctx
         self.n_templates = n_templates
         self.n_mut = n_mut
@@ -100,3 +101,17 @@ class Workload:
                     if ctx.mine(idx):
                         yield idx, 'noise', d, t
                     idx += 1
+
+        # class 6: hostile identifier lexemes x positions (sampled deterministically)
+        if self.n_lexeme:
+            from mindsdb_sql.parser.ast.select.identifier import RESERVED_KEYWORDS
+            ids = sqlgen.hostile_identifiers(monitors.lexer_classes()['mindsdb'], sorted(RESERVED_KEYWORDS))
+            r = core.rng_for(ctx.seed, 'parsework', 'lexeme')
+            npos = len(sqlgen.IDENT_POSITIONS)
+            for j in range(self.n_lexeme):
+                x = ids[j % len(ids)] if j < len(ids) * 2 else r.choice(ids)
+                pos = sqlgen.IDENT_POSITIONS[(j // len(ids) + j) % npos] if j < len(ids) * 2 else r.choice(sqlgen.IDENT_POSITIONS)
+                d = self.dialects[0] if j % 4 else self.dialects[1 + (j // 4) % 2]
+                if ctx.mine(idx):
+                    yield idx, 'lexeme', d, pos.format(x=x)
+                idx += 1
